@@ -43,6 +43,8 @@ func runC17(c *core.Ctx) {
 	checkEOSPoll(c)
 	checkCountingPoll(c)
 	checkGroupByWatermarkOrder(c)
+	c.Rule("EMIT", "the event-time buffer in front of the group-by releases a record at its watermark, not after it (shared with C18)")
+	checkBufferEmit(c)
 	checkMultiTrigger(c)
 	checkWatermarkKeyLess(c)
 }
